@@ -70,7 +70,17 @@ var c07Seqs = func() []uint64 {
 	for k := uint(1); k <= 9; k++ {
 		s = append(s, 1<<(7*k)-1, 1<<(7*k))
 	}
-	return append(s, 1<<64-1)
+	s = append(s, 1<<64-1)
+	// one value per encoded length whose 7-bit groups are all different (boundary values have groups of all
+	// zeros or all ones, which a copy-and-paste mistake between two groups does not show on)
+	for k := uint(1); k <= 10; k++ {
+		var v uint64
+		for g := uint(0); g < k; g++ {
+			v |= uint64((0x15+g*0x0B)&0x7f|1) << (7 * g)
+		}
+		s = append(s, v)
+	}
+	return s
 }()
 
 var c07TextLens = []int{0, 1, 127, 128, 129, 16383, 16384}
